@@ -9,7 +9,11 @@ export VERIF_REPO=$R
 sed -i "s#\"/repo/#\"$R/#g" harness/Cargo.toml
 sed -i "s#cp /repo/Cargo.lock#cp $R/Cargo.lock#" setup.sh
 ./setup.sh > reseed.setup.log 2>&1 || { echo "setup failed"; tail -5 reseed.setup.log; exit 2; }
+i=0
 for d in seeded/*/; do
+  i=$((i+1))
+  # (RESEED_STEP=k RESEED_OFFSET=j: only every k-th stored change, starting at the j-th)
+  if [ $(( (i + ${RESEED_OFFSET:-0}) % ${RESEED_STEP:-1} )) -ne 0 ]; then continue; fi
   n=$(basename $d)
   p=$(python3 -c "import json;print(json.load(open('$d/meta.json'))['property'])")
   if git -C $R apply "$(pwd)/$d/patch.diff" 2>/dev/null; then
